@@ -284,4 +284,166 @@ theorem blockPost_qlpc (h : Hdr) (coefs : List Int) (coff : Int) (res buf sh : L
   · rw [hacc', List.take_append_of_le_length (by simp; omega), List.take_take, Nat.min_eq_left hbs,
       window_self_of_le _ (by omega)]
 
+/-! ## the per-channel refinement relation -/
+
+structure RelChan (h : Hdr) (c : ChanSt) (s : SChan) : Prop where
+  len : c.buf.length = h.bs0 + h.nwrap
+  hist : c.buf.take h.nwrap = (window h.nwrap s.hist).reverse
+  off : c.off = if h.nmean = 0 then [h.meanInit]
+                else ((s.means ++ List.replicate h.nmean h.meanInit).take h.nmean).reverse
+
+theorem coffset_rel {h : Hdr} {c : ChanSt} {s : SChan} (hr : RelChan h c s) (shift : Nat) :
+    coffset h shift c.off = semCoffset h shift s.means := by
+  unfold coffset semCoffset
+  by_cases hn : h.nmean = 0
+  · simp [hn, hr.off]
+  · have hl : ((s.means ++ List.replicate h.nmean h.meanInit).take h.nmean).reverse.length ≤ h.nmean := by
+      simp
+    simp only [hn, ne_eq, not_false_eq_true, if_true, hr.off, if_false]
+    rw [List.take_of_length_le hl, List.sum_reverse]
+
+theorem slice_rev_blk (A T : List Int) (nw bs : Nat) (hA : A.length = nw + bs) :
+    slice (A.reverse ++ T) nw (nw + bs) = (A.take bs).reverse := by
+  unfold slice
+  rw [List.take_append_of_le_length (by simp; omega), List.take_of_length_le (by simp; omega),
+    List.drop_reverse]
+  congr 2
+  omega
+
+theorem slice_rev_hist (A T : List Int) (nw bs : Nat) (hA : A.length = nw + bs) :
+    slice (A.reverse ++ T) bs (bs + nw) = (A.take nw).reverse := by
+  unfold slice
+  rw [List.take_append_of_le_length (by simp; omega), List.take_of_length_le (by simp; omega),
+    List.drop_reverse]
+  congr 2
+  omega
+
+theorem meanUpdate_rel {h : Hdr} (bs shift : Nat) (off means buf1 : List Int)
+    (hoff : off = if h.nmean = 0 then [h.meanInit]
+                  else ((means ++ List.replicate h.nmean h.meanInit).take h.nmean).reverse) :
+    let m := blockMean h bs shift (slice buf1 h.nwrap (h.nwrap + bs))
+    meanUpdate h bs shift off buf1 =
+      if h.nmean = 0 then [h.meanInit]
+      else (((if h.nmean > 0 then m :: means else means) ++ List.replicate h.nmean h.meanInit).take h.nmean).reverse := by
+  intro m
+  unfold meanUpdate
+  by_cases hn : h.nmean = 0
+  · simp [hn, hoff]
+  · have hpos : h.nmean > 0 := Nat.pos_of_ne_zero hn
+    simp only [hpos, if_true, hn, if_false]
+    obtain ⟨W, hW⟩ : ∃ W, W = (means ++ List.replicate h.nmean h.meanInit).take h.nmean := ⟨_, rfl⟩
+    have hWl : W.length = h.nmean := by rw [hW]; simp
+    have hoff' : off = W.reverse := by rw [hoff, hW]; simp [hn]
+    obtain ⟨k, hk⟩ : ∃ k, h.nmean = k + 1 := ⟨h.nmean - 1, by omega⟩
+    have e1 : (m :: means ++ List.replicate h.nmean h.meanInit).take h.nmean = m :: W.take k := by
+      rw [hW, hk, List.cons_append, List.take_succ_cons, List.take_take, Nat.min_eq_left (Nat.le_succ k)]
+    rw [e1, hoff']
+    -- left: shift the window, overwrite the last cell
+    have e2 : slice W.reverse 1 h.nmean = (W.take k).reverse := by
+      unfold slice
+      rw [List.take_of_length_le (by simp; omega), List.drop_reverse]
+      congr 2
+      omega
+    have e3 : setSlice W.reverse 0 (W.take k).reverse = (W.take k).reverse ++ W.reverse.drop k := by
+      simp [setSlice]
+    rw [e2, e3, List.reverse_cons]
+    have hl : ((W.take k).reverse).length = k := by simp; omega
+    have hk' : h.nmean - 1 = k := by omega
+    rw [hk', List.set_append_right _ _ (by omega), hl, Nat.sub_self]
+    have : (W.reverse.drop k).length = 1 := by simp; omega
+    match hd : W.reverse.drop k, this with
+    | [x], _ => simp [m]
+
+theorem slice_eq_drop_take (l : List Int) (a n : Nat) : slice l a (a + n) = (l.drop a).take n := by
+  unfold slice
+  rw [List.drop_take]
+  congr 1
+  omega
+
+theorem fixSample_pcm {ftype : Nat} (shift : Nat) (v : Int) (h : ¬(ftype = TYPE_AU1 ∨ ftype = TYPE_AU2)) :
+    fixSample ftype shift v = v <<< shift := by
+  unfold fixSample
+  have h1 : ftype ≠ TYPE_AU1 := fun e => h (Or.inl e)
+  have h2 : ftype ≠ TYPE_AU2 := fun e => h (Or.inr e)
+  simp [h1, h2]
+
+/-- finishing a block re-establishes the channel relation and leaves the fixed-up block in the block cells -/
+theorem finish_chan (h : Hdr) (bs shift : Nat) (c : ChanSt) (s : SChan) (buf1 hist' : List Int)
+    (hr : RelChan h c s) (hp : BlockPost h.nwrap bs c.buf buf1 hist') (hbs : bs ≤ h.bs0) :
+    slice buf1 h.nwrap (h.nwrap + bs) = (hist'.take bs).reverse ∧
+    RelChan h ⟨fixBuf h shift bs (wrapBuf h.nwrap bs buf1), meanUpdate h bs shift c.off buf1⟩
+      ⟨hist', if h.nmean > 0 then blockMean h bs shift (hist'.take bs).reverse :: s.means else s.means⟩ ∧
+    slice (fixBuf h shift bs (wrapBuf h.nwrap bs buf1)) h.nwrap (h.nwrap + bs)
+      = ((hist'.take bs).reverse).map (fixSample h.ftype shift) := by
+  obtain ⟨A, hb1, hAl, hAbs, hAnw, hle⟩ := hp
+  obtain ⟨nw, hnw⟩ : ∃ nw, nw = h.nwrap := ⟨_, rfl⟩
+  rw [← hnw] at hb1 hAl hAnw ⊢
+  have hlen := hr.len
+  rw [← hnw] at hlen
+  obtain ⟨blk, hblk⟩ : ∃ blk, blk = (hist'.take bs).reverse := ⟨_, rfl⟩
+  have hblkl : blk.length = bs := by rw [hblk]; simp; omega
+  have e_blk : slice buf1 nw (nw + bs) = blk := by rw [hb1, slice_rev_blk _ _ _ _ hAl, hAbs, hblk]
+  have e_hist : slice buf1 bs (bs + nw) = (window nw hist').reverse := by
+    rw [hb1, slice_rev_hist _ _ _ _ hAl, hAnw]
+  have hl1 : buf1.length = h.bs0 + nw := by rw [hb1]; simp; omega
+  obtain ⟨buf2, hbuf2⟩ : ∃ b, b = wrapBuf nw bs buf1 := ⟨_, rfl⟩
+  have e2 : buf2 = (window nw hist').reverse ++ buf1.drop nw := by
+    rw [hbuf2]; unfold wrapBuf; rw [e_hist]; simp [setSlice, window_length]
+  have hl2 : buf2.length = h.bs0 + nw := by rw [e2]; simp [window_length]; omega
+  have ht2 : buf2.take nw = (window nw hist').reverse := by
+    rw [e2, List.take_left' (by simp [window_length])]
+  have hd2 : buf2.drop nw = buf1.drop nw := by
+    rw [e2, List.drop_left' (by simp [window_length])]
+  have es2 : slice buf2 nw (nw + bs) = blk := by
+    rw [slice_eq_drop_take, hd2, ← slice_eq_drop_take, e_blk]
+  rw [← hblk, ← hbuf2]
+  refine ⟨e_blk, ?_, ?_⟩
+  · -- channel relation
+    refine ⟨?_, ?_, ?_⟩
+    · show (fixBuf h shift bs buf2).length = h.bs0 + h.nwrap
+      rw [← hnw]
+      unfold fixBuf
+      rw [← hnw]
+      split
+      · simp [setSlice, es2, hblkl]; omega
+      · split
+        · simp; omega
+        · exact hl2
+    · show (fixBuf h shift bs buf2).take h.nwrap = (window h.nwrap hist').reverse
+      rw [← hnw]
+      unfold fixBuf
+      rw [← hnw]
+      split
+      · unfold setSlice
+        rw [List.append_assoc, List.take_left' (by simp; omega), ht2]
+      · split
+        · rw [List.take_left' (by simp; omega), ht2]
+        · exact ht2
+    · show meanUpdate h bs shift c.off buf1 = _
+      have := meanUpdate_rel (h := h) bs shift c.off s.means buf1 hr.off
+      simp only at this
+      rw [this, ← hnw, e_blk]
+  · unfold fixBuf
+    rw [← hnw]
+    split
+    · rw [es2]
+      unfold setSlice
+      rw [List.append_assoc, slice_eq_drop_take, List.drop_left' (by simp; omega),
+        List.take_left' (by simp [hblkl])]
+    · rename_i hau
+      split
+      · rw [slice_eq_drop_take, List.drop_left' (by simp; omega), ← List.map_take,
+          ← slice_eq_drop_take, es2]
+        apply List.map_congr_left
+        intro v _
+        exact (fixSample_pcm shift v hau).symm
+      · rename_i hs
+        have hs0 : shift = 0 := by omega
+        rw [es2]
+        have : (fun v => fixSample h.ftype shift v) = id := by
+          funext v
+          rw [fixSample_pcm shift v hau, hs0, Int.shiftLeft_zero]; rfl
+        show blk = List.map (fun v => fixSample h.ftype shift v) blk
+        rw [this, List.map_id]
+
 end PdsVerif.Model.Shorten
